@@ -18,7 +18,10 @@ RULE = ("class chains of C01 (aliases, private names, kw_only, init=False, conve
         "a bad value the class's validators would reject --, an instance attribute that is no field added, validators "
         "switched off process-wide during the operation} x operation {evolve, assoc} x change sets (random subsets of init "
         "aliases / field names in random order; new values are fresh tokens, None, the empty string, a value EQUAL to the "
-        "field's current one, or a bad value; sometimes one name that is no key: unknown, a field's name where the alias "
+        "field's current one, the very object the original holds, a bad value, or a non-string SHAPE: field values "
+        "(constructor arguments) may be instances of attrs classes -- two other classes, the class under test itself --, a "
+        "dict or a list, and new values dicts (empty, keyed by init names / aliases of the nested instance's class or of "
+        "another class, by other names), lists or such instances; sometimes one name that is no key: unknown, a field's name where the alias "
         "is wanted (or the alias where the name is wanted), an init=False field, a method / property / class constant of "
         "the class, an instance-dict extra, dunder names of attrs classes, names resolving on every tuple) x "
         "harness-only variation the model is independent of: the instance's class is the leaf or a plain subclass of it "
@@ -41,6 +44,9 @@ ASSUMPTIONS = c01.ASSUMPTIONS + [
     "handed in holds a value whose text contains 'bad'); the Lean model knows the rules (Case.veto) and the order in "
     "which the generated initializer calls validators",
     "layout fact copyNeedsAll is read from the real class of the instance (like isSlot)",
+    "non-string values are protocol tokens (inst:*, dict:*, list:*) the Lean model treats as opaque texts; the harness "
+    "maps token <-> object by identity (ib.DECODE_EXTRA / ib.CANON_EXTRA), so an object the code under test makes up in "
+    "place of the one handed in canonicalises differently and its identity is not 'passed'",
 ]
 EXHAUSTIVE = {"quick": False, "thorough": False}
 BUDGET_S = {"quick": 40, "thorough": 420}
@@ -59,6 +65,81 @@ LEVEL_TEXT = ("Lean: evolve is defined through the initializer model, so the C01
               "object), the callback trace of the operation, evolve against a direct call of the class with the same "
               "arguments (exception, values, trace, validator switch restored), the original afterwards, exception kind, "
               "and eq/hash/frozenness of the result against an instance rebuilt from its values (detects stale cached hashes).")
+
+
+# ------------------------------------------------------------------------------------------ value shapes
+@attr.s(frozen=True)
+class Point:
+    """an attrs class whose instances are field VALUES (init names: x, y -- alias of _y --, tag)"""
+    x = attr.ib()
+    _y = attr.ib()
+    tag = attr.ib(default="p")
+
+
+@attr.s(slots=True)
+class Other:
+    x = attr.ib(default=0)
+    name = attr.ib(default="q")
+
+
+# protocol tokens for values that are not strings: instances of attrs classes (Point, Other, the class under test
+# itself), dicts (empty, keyed by init names of those classes, by other names), lists.  The Lean model treats values as
+# opaque texts; `ib.DECODE_EXTRA` / `ib.CANON_EXTRA` translate (by object identity: an object some code under test
+# makes up instead -- e.g. an "evolved" nested instance -- canonicalises as `other:<type>`).
+SHAPE_TOKENS = ["inst:P1", "inst:P2", "inst:Q1", "inst:SELF", "dict:{}", "dict:x", "dict:y", "dict:xy", "dict:tag",
+                "dict:foo", "dict:_y", "dict:name", "list:0", "list:1"]
+DICT_TOKENS = [t for t in SHAPE_TOKENS if t.startswith("dict:")]
+_SHAPE_SET = set(SHAPE_TOKENS)
+_SHAPES: dict = {}         # id(object) -> (object, token), per observation
+_SHAPE_CLS = [None]        # the class under test (for inst:SELF)
+_DICTS = {"{}": {}, "x": {"x": 10}, "y": {"y": 7}, "xy": {"x": 10, "y": 7}, "tag": {"tag": "t"}, "foo": {"foo": 1},
+          "_y": {"_y": 2}, "name": {"name": "z"}}
+
+
+def _mk_shape(tok):
+    kind, _, arg = tok.partition(":")
+    if kind == "dict":
+        o = dict(_DICTS[arg])
+    elif kind == "list":
+        o = [] if arg == "0" else [1, 2]
+    elif arg == "P1":
+        o = Point(1, 2)
+    elif arg == "P2":
+        o = Point(3, 4, "r")
+    elif arg == "Q1":
+        o = Other(5)
+    else:
+        # an instance of the very class under test, every field holding a marker
+        C = _SHAPE_CLS[0]
+        o = C.__new__(C)
+        for a in getattr(C, "__attrs_attrs__", ()):
+            try:
+                object.__setattr__(o, a.name, "nested." + a.name)
+            except Exception:  # noqa: BLE001
+                pass
+        try:
+            object.__setattr__(o, "_attrs_cached_hash", None)
+        except Exception:  # noqa: BLE001
+            pass
+    _SHAPES[id(o)] = (o, tok)
+    return o
+
+
+def _decode_extra(v):
+    return _mk_shape(v) if v in _SHAPE_SET else v
+
+
+def _canon_extra(o):
+    e = _SHAPES.get(id(o))
+    return e[1] if e is not None and e[0] is o else None
+
+
+def _reset_hooks():
+    ib.VETO[0] = None
+    ib.DECODE_EXTRA[0] = None
+    ib.CANON_EXTRA[0] = None
+    _SHAPE_CLS[0] = None
+    _SHAPES.clear()
 
 
 class VetoValueError(common.UserError, ValueError):
@@ -121,12 +202,17 @@ def _history(h, ctor, hist, veto=None, veto_exc="plain"):
     classes = ib.build(h)
     C = classes[-1]
     ib.VETO[0] = _veto_rule(veto, veto_exc)
+    _SHAPES.clear()
+    ib.DECODE_EXTRA[0] = _decode_extra
+    ib.CANON_EXTRA[0] = _canon_extra
+    _SHAPE_CLS[0] = C
     ps = hist.get("plain_sub")
     if ps:
         # the instance's class is a plain (undecorated) subclass of the leaf: same fields, same initializer, but
         # `type(inst).__dict__` has no __slots__ (or an empty one) whatever the storage of the fields is
         L = C
         C = type("PS", (L,), _ps_body(L, ps))
+        _SHAPE_CLS[0] = C
         inst = C.__new__(C)
         ib.SELF[0] = inst
         del ib.TRACE[:]
@@ -215,6 +301,8 @@ def _passed(v, mode):
     plain str built at run time (strings shorter than 2 characters are shared by the interpreter: str subclass)"""
     if v == "None":
         return None
+    if v in _SHAPE_SET:
+        return _mk_shape(v)
     if mode == "plain" and len(v) >= 2:
         out = "".join((v[:1], v[1:]))
         if type(out) is str and out is not v:
@@ -241,6 +329,15 @@ def gen_cases(tier, rng):
         fields = ib.expected_fields(h)
         frozen = ib.leaf_frozen(h)
         ctor = ib.gen_call(rng, h, malformed=0.0)
+        if rng.random() < 0.4:
+            # field values that are no strings: instances of attrs classes (another class, the class under test), a dict, a list
+            slots_ = [("pos", i) for i in range(len(ctor["pos"]))] + [("kw", i) for i in range(len(ctor["kw"]))]
+            for where, i in rng.sample(slots_, min(len(slots_), rng.choice([1, 1, 2]))):
+                tok = rng.choice(["inst:P1", "inst:P1", "inst:P2", "inst:Q1", "inst:Q1", "inst:SELF", "dict:foo", "list:1"])
+                if where == "pos":
+                    ctor["pos"][i] = tok
+                else:
+                    ctor["kw"][i][1] = tok
         mutable_validate_free = not frozen
         # validators whose verdict depends on the instance: own value or another field's
         veto = []
@@ -295,6 +392,10 @@ def gen_cases(tier, rng):
                 taken = {k_ for k_, _ in keys}
                 k = rng.randint(0, len(keys))
                 chosen = rng.sample(keys, k)
+                for kf in keys:
+                    # a field that holds an attrs instance is usually part of the change set
+                    if kf not in chosen and (curd.get(kf[1]) or "").startswith("inst:") and rng.random() < 0.6:
+                        chosen.insert(rng.randint(0, len(chosen)), kf)
                 if rng.random() < 0.2:
                     r = rng.random()
                     pool = TUPLE_NAMES if r < 0.25 else near if (r < 0.45 and near) else CLEAN_NAMES
@@ -302,9 +403,22 @@ def gen_cases(tier, rng):
                     if bad_name not in taken:
                         chosen.insert(rng.randint(0, len(chosen)), (bad_name, None))
                 changes = []
+                same_obj = []
                 for i, (key, fname) in enumerate(chosen):
                     r = rng.random()
-                    if fname in watched and r < 0.25:
+                    cv = curd.get(fname) if fname is not None else None
+                    if cv is not None and cv.startswith("inst:") and r < 0.7:
+                        # the field holds an attrs instance and is given a dict (empty, keyed by init names of that class
+                        # or of another, by other names): a plain new value
+                        val = rng.choice(DICT_TOKENS)
+                    elif cv is not None and cv.startswith(("dict:", "list:")) and r < 0.5:
+                        val = rng.choice(DICT_TOKENS + ["list:0", "list:1"])     # a container replaced by a container
+                    elif r < 0.08:
+                        val = rng.choice(SHAPE_TOKENS)
+                    elif cv is not None and r < 0.14:
+                        val = cv                # the very object the original holds is handed back
+                        same_obj.append(key)
+                    elif fname in watched and r < 0.3:
                         val = f"bad{i + 1}"     # a value some validator rejects (its own field's or another's)
                     elif r < 0.2:
                         val = rng.choice(["None", "None", ""])
@@ -313,9 +427,11 @@ def gen_cases(tier, rng):
                     else:
                         val = f"n{i + 1}"
                     changes.append([key, val])
-                yield make_case(h, ctor, hist, op, changes, cur, rng.choice(["sub", "plain"]), veto, facts, veto_exc)
+                case = make_case(h, ctor, hist, op, changes, cur, rng.choice(["sub", "plain"]), veto, facts, veto_exc)
+                case["same_obj"] = same_obj
+                yield case
         finally:
-            ib.VETO[0] = None
+            _reset_hooks()
 
 
 def defines(case):
@@ -366,7 +482,7 @@ def observe(case):
     try:
         return _observe(case)
     finally:
-        ib.VETO[0] = None
+        _reset_hooks()
         ib.SELF_CLASS[0] = None
         attr.validators.set_disabled(prev_disabled)
         del ib.TRACE[:]
@@ -385,6 +501,16 @@ def _observe(case):
     exc = None
     res = None
     passed = {k: _passed(v, case.get("passed_as", "sub")) for k, v in case["changes"]}
+    if case.get("same_obj"):
+        # the object the original holds itself is the new value
+        by_key = {(f.get("alias") or ib.default_alias(f["name"])) if case["op"] == "evolve" else f["name"]: f["name"]
+                  for f in ib.expected_fields(h) if case["op"] == "assoc" or f.get("init", True)}
+        for k in case["same_obj"]:
+            if k in passed and k in by_key:
+                try:
+                    passed[k] = getattr(inst, by_key[k])
+                except AttributeError:
+                    pass
     del ib.TRACE[:]
     try:
         with warnings.catch_warnings():
@@ -463,7 +589,12 @@ def _observe(case):
             if not (res == rebuilt):
                 inv = False
             if C.__hash__ is not None and C.__hash__ is not object.__hash__ and not case["base"]["run"]["cfg"]["isExc"]:
-                if hash(res) != hash(rebuilt):
+                def _hash_outcome(o):
+                    try:
+                        return ("ok", hash(o))
+                    except TypeError:          # a field value that cannot be hashed (dict, list, unhashable instance)
+                        return ("unhashable-value", None)
+                if _hash_outcome(res) != _hash_outcome(rebuilt):
                     inv = False
         try:
             setattr(res, "zz_probe", 1)
@@ -498,6 +629,13 @@ def dist(case, obs):
         by_key[a["alias"] if case["op"] == "evolve" else a["name"]] = a
     d["equal_change"] = sum(1 for k, v in case["changes"] if k in by_key and curd.get(by_key[k]["name"]) == v and v != "None")
     d["passed_as"] = case.get("passed_as", "sub")
+    # value shapes: what the changed field holds now / what it is given
+    def _shape(v):
+        return "unset" if v is None else v.split(":")[0] if v in _SHAPE_SET else "text"
+    pairs = sorted({_shape(curd.get(by_key[k]["name"])) + "<-" + _shape(v) for k, v in case["changes"] if k in by_key})
+    shaped = [p_ for p_ in pairs if p_ != "text<-text"]
+    d["value_shapes"] = shaped[0] if shaped else "text only"
+    d["old_object_handed_back"] = bool(case.get("same_obj"))
     # validators depending on state: is a bad value around, where does it come from, what happened
     bad_change = [k for k, v in case["changes"] if "bad" in v]
     bad_cur = [k for k, v in case["cur"] if v is not None and "bad" in v]
@@ -540,9 +678,11 @@ def shrink(case):
         except Exception:  # noqa: BLE001
             pass
         finally:
-            ib.VETO[0] = None
+            _reset_hooks()
     if case["hist"].get("extra_attr"):
         yield dict(case, hist=dict(case["hist"], extra_attr=False))
+    if case.get("same_obj"):
+        yield dict(case, same_obj=[])
     vt = case.get("veto", [])
     for i in range(len(vt)):
         yield dict(case, veto=vt[:i] + vt[i + 1:])
